@@ -50,7 +50,9 @@ func containsCodec(cs []string, c string) bool {
 }
 
 func targetDuration(segments []muxerSegment) int {
-	ret := int(0)
+	// a target duration of zero is refused by players (and by the playlist package),
+	// segments shorter than half a second are announced with a target duration of one second.
+	ret := int(1)
 
 	// EXTINF, when rounded to the nearest integer, must be <= EXT-X-TARGETDURATION
 	for _, sog := range segments {
